@@ -199,7 +199,11 @@ class Check:
         if new:
             os.makedirs(REPLAY, exist_ok=True)
             shown = set()
+            per_sig = {}
             for v in new:
+                per_sig[v["signature"]] = per_sig.get(v["signature"], 0) + 1
+                if per_sig[v["signature"]] > 2:
+                    continue
                 h = sha(v["signature"] + json.dumps(v.get("replay_obj"), sort_keys=True, default=str))[:12]
                 path = os.path.join(REPLAY, "%s-%s.json" % (self.pid, h))
                 with open(path, "w") as f:
